@@ -426,6 +426,18 @@ void Exec::run_op(const Op& op) {
       memcpy(a.i, op.i, sizeof a.i);
       memcpy(a.d, op.d, sizeof a.d);
       a.s = op.snull ? nullptr : op.s.c_str();
+      if (op.i[3] > 0 && op.d[11] != 0 && q->shape[0] == 'i' && strlen(q->shape) < 12) {
+        // energy relative to an absorption edge of this element (the edge is looked up inside the op)
+        double edge = EdgeEnergy(a.i[0], op.i[3] - 1, nullptr);
+        int di = 0;
+        for (int j = 0; q->shape[j]; j++) {
+          if (q->shape[j] != 'd') continue;
+          if (q->cls[j] && (!strcmp(q->cls[j], "E") || !strcmp(q->cls[j], "E0"))) { if (edge > 0) a.d[di] = edge * op.d[11]; break; }
+          di++;
+        }
+        a.i[3] = 0;
+        a.d[11] = 0;
+      }
       QRet r = call_query(*q, a, ep);
       g.dbl(r.d0); g.dbl(r.d1);
       failed_sentinel = r.d0 == 0.0 && r.d1 == 0.0;
